@@ -84,6 +84,16 @@ REAL = [
      ["d", _q("win")], ["RETURN", ["v", "d"]]],
     [["a", _q("win")], ["c", _c("tag", ["v", "a"], ["l", [["l", [_s("zero"), ["d", [["type", _s("regex")], ["regex", _s("a0")]]]]]]])],
      ["RETURN", ["l", [_c("query_bucket_eventcount", _s("win")), _q("win")]]]],
+    # rules that share their regex text and differ in the keys they look at (or in letter case handling), side by side in one
+    # literal and in successive calls
+    [["RETURN", _c("categorize", _q("win"), ["l", [["l", [["l", [_s("T")]], ["d", [["type", _s("regex")], ["regex", _s("a0")], ["select_keys", ["l", [_s("title")]]]]]]],
+                                                   ["l", [["l", [_s("A")]], ["d", [["type", _s("regex")], ["regex", _s("a0")], ["select_keys", ["l", [_s("app")]]]]]]]]])]],
+    [["x", _c("tag", _q("win"), ["l", [["l", [_s("on-app"), ["d", [["type", _s("regex")], ["regex", _s("t1")], ["select_keys", ["l", [_s("app")]]]]]]]]])],
+     ["y", _c("tag", _q("win"), ["l", [["l", [_s("anywhere"), ["d", [["type", _s("regex")], ["regex", _s("t1")]]]]]]])],
+     ["RETURN", ["l", [["v", "x"], ["v", "y"]]]]],
+    [["x", _c("categorize", _q("win"), ["l", [["l", [["l", [_s("lower")]], ["d", [["type", _s("regex")], ["regex", _s("A0")]]]]]]])],
+     ["y", _c("categorize", _q("win"), ["l", [["l", [["l", [_s("any-case")]], ["d", [["type", _s("regex")], ["regex", _s("A0")], ["ignore_case", ["v", "true"]]]]]]]])],
+     ["RETURN", ["l", [["v", "x"], ["v", "y"]]]]],
     # an empty list of values: filter keeps nothing, exclude keeps everything
     [["RETURN", _c("filter_keyvals", _q("win"), _s("app"), ["l", []])]],
     [["v", ["l", []]], ["RETURN", ["l", [_c("filter_keyvals", _q("win"), _s("app"), ["v", "v"]), _c("exclude_keyvals", _q("win"), _s("app"), ["v", "v"])]]]],
